@@ -171,12 +171,94 @@ def props_of(prog, f, c09):
     return PROPS + (['C09'] if f.path in c09 else [])
 
 
+def rename_map(prog, trees):
+    """private functions that exist under a name of their own in one copy only, paired by their guarded effects with
+    a function the copy lacks but the other copies have (a local rename): {local name: name in the other copies}"""
+    from rules.pool import tree_pool
+    fns = {}
+    for t in trees:
+        pool, _ = tree_pool(prog, t)
+        fns[t] = {f.name: f for f in prog.fns.values() if not f.is_closure and not f.trait_item and f.self_adt in (t, pool)}
+    unpaired = {t: {n for n in fns[t] if not any(n in fns[t2] for t2 in trees if t2 != t)} for t in trees}
+    missing = {t: {n for t2 in trees if t2 != t for n in fns[t2] if n not in fns[t]} - set().union(*[unpaired[t2] for t2 in trees]) for t in trees}
+    if not any(unpaired.values()) or not any(missing[t] and unpaired[t] for t in trees):
+        return {}
+    mask = {n: '\u00bf' for t in trees for n in unpaired[t] | missing[t]}
+
+    def drop_cache():
+        for k in [k for k in prog._summ_cache if k and k[0] == 'gef']:
+            del prog._summ_cache[k]
+    prog._name_alias = mask
+    drop_cache()
+    alias = {}
+    ambiguous = {}
+    try:
+        for t in trees:
+            for n in sorted(unpaired[t]):
+                fa = G.gef(prog, fns[t][n])
+                cands = set()
+                for m in missing[t]:
+                    for t2 in trees:
+                        if t2 != t and m in fns[t2] and fns[t2][m].body.arg_count == fns[t][n].body.arg_count and G.gef(prog, fns[t2][m]) == fa:
+                            cands.add(m)
+                if len(cands) == 1:
+                    alias[n] = cands.pop()
+                elif cands:
+                    ambiguous.setdefault(t, {})[n] = sorted(cands)
+    finally:
+        prog._name_alias = alias
+        drop_cache()
+    # helpers with identical effects (get_uncle / get_sibling): choose the pairing under which their callers agree
+    import itertools
+    for t, amb in sorted(ambiguous.items()):
+        names = sorted(amb)
+        pool_c = sorted(set().union(*[set(c) for c in amb.values()]) - set(alias.values()))
+        if len(names) > 4 or len(pool_c) > 5:
+            continue
+        best = None
+        for perm in itertools.permutations(pool_c, len(names)):
+            if any(m not in amb[n] for n, m in zip(names, perm)):
+                continue
+            trial = dict(alias)
+            trial.update(zip(names, perm))
+            prog._name_alias = trial
+            drop_cache()
+            score = 0
+            for n2, f in fns[t].items():
+                m2 = trial.get(n2, n2)
+                for t2 in trees:
+                    if t2 != t and m2 in fns[t2]:
+                        score += G.gef(prog, f) == G.gef(prog, fns[t2][m2])
+                        break
+            if best is None or score > best[0]:
+                best = (score, trial)
+        if best:
+            alias = best[1]
+        prog._name_alias = alias
+        drop_cache()
+    # one-to-one only
+    rev = {}
+    for a, b in alias.items():
+        rev.setdefault(b, []).append(a)
+    for b, xs in rev.items():
+        if len(xs) > 1:
+            for a in xs:
+                del alias[a]
+    prog._name_alias = alias
+    return alias
+
+
 def run(ctx):
     prog = ctx.prog
     c09 = extra_props(prog)
     trees = sorted(prog.tree_adts)
-    cores = {t: family_core(prog, t) for t in trees}
     fams = {t: t.split('::')[0] for t in trees}
+    alias = rename_map(prog, trees)
+    cores = {}
+    for t in trees:
+        cores[t] = {(kind, alias.get(name, name)): f for (kind, name), f in family_core(prog, t).items()}
+    for old_name, new_name in sorted(alias.items()):
+        ctx.add(RULE, None, 'renamed(%s)' % new_name, 'info', 'private function %s has the guarded effects of %s in the other copies and is compared with it' % (old_name, new_name), PROPS, 0, nontrivial=False)
     # ---- 1. sibling agreement -------------------------------------------------------------------
     forms = {t: {k: canon_fn(f.hir, 'num') for k, f in cores[t].items()} for t in trees}
     all_keys = sorted(set().union(*[set(c) for c in cores.values()])) if cores else []
